@@ -31,6 +31,7 @@ T_BASE = [
     "write(!val(x));",
     "x = (!val(x) + f(1)) % 4;",
     "write(\"str\"); writeln(x);",
+    "writeln(0 - x - 1);",
 ]
 
 
@@ -212,7 +213,7 @@ byte q(byte x) { write('q'); return x; }
 empty h2(int x, int y) { write(x); write(','); write(y); }
 """
 Q_LEFT = ['3', 'x', 'g', 'f(x)', 'id(x)', 'dz(x)', 'f(g)', 'rg()', '(x + g)']
-Q_RIGHT = ['0', 'x', 'g', 'id(x)', 'f(1)', '6', '12']
+Q_RIGHT = ['0', 'x', 'g', 'id(x)', 'f(1)', '6', '12', '(x * 2)', '(g - 2)']
 Q_POS = [
     'writeln({s});',
     'int w = {s}; writeln(w);',
@@ -308,6 +309,10 @@ P_AFTER = [
     "x += 1; !truth_is_defeat(x == 2);",
     "!pf(x); !truth_is_defeat(x == 0);",
     "write('k'); preempt { write('s'); x = 5; } !truth_is_defeat(x == 2);",
+    # a non-preemptive defeat function generated right after the preemptive one must not inherit its return check
+    "!np(x); !truth_is_defeat(x == 1);",
+    "!np(x); !is_defeat();",
+    "write(!nv(x)); !truth_is_defeat(x == 2);",
 ]
 P_ARGVS = [['0'], ['1'], ['2']]
 
@@ -325,5 +330,6 @@ def build_P(chunk):
     (fi, ai, h), = chunk
     callx = '!pf(x);' if not P_FUNCS[fi].startswith('int') else 'write(!pf(x));'
     after = P_AFTER[ai].replace('!pf(x);', callx)
-    return (P_FUNCS[fi] + f"\nempty @t(int x) {{ try {{ {callx} write('b'); {after} write('c'); }} {h} {{ write('h'); }} write(x); }}\n"
+    extra = "\nempty !np(int v) { write('n'); }\nint !nv(int v) { write('N'); return v + 1; }"
+    return (P_FUNCS[fi] + extra + f"\nempty @t(int x) {{ try {{ {callx} write('b'); {after} write('c'); }} {h} {{ write('h'); }} write(x); }}\n"
             "empty @is_you(int x) { @t(x); writeln(); write('w'); }\n")
